@@ -9,7 +9,24 @@ use serde::{de::DeserializeOwned, Serialize};
 use serde_json::{json, Value};
 use std::sync::Arc;
 
-const NAMES: [&str; 5] = ["c18-res", "资源/ü", "a|b|c", "q\"uo\\te", " sp ace\t"];
+/// Resource names. The long ones put a multi-byte character under EVERY byte offset of a document
+/// between about 25 and 145, in every alignment (3-byte characters shifted by 0..2 ASCII bytes,
+/// 4-byte ones by 0..3): code that cuts a document at a byte offset meets a character boundary
+/// problem for one of them.
+const NAMES: [&str; 12] = [
+    "c18-res",
+    "资源/ü",
+    "a|b|c",
+    "q\"uo\\te",
+    " sp ace\t",
+    "资资资资资资资资资资资资资资资资资资资资资资资资资资资资资资资资资资资资资资资资",
+    "a资资资资资资资资资资资资资资资资资资资资资资资资资资资资资资资资资资资资资资资资",
+    "ab资资资资资资资资资资资资资资资资资资资资资资资资资资资资资资资资资资资资资资资资",
+    "😀😀😀😀😀😀😀😀😀😀😀😀😀😀😀😀😀😀😀😀😀😀😀😀😀😀😀😀😀😀",
+    "a😀😀😀😀😀😀😀😀😀😀😀😀😀😀😀😀😀😀😀😀😀😀😀😀😀😀😀😀😀😀",
+    "ab😀😀😀😀😀😀😀😀😀😀😀😀😀😀😀😀😀😀😀😀😀😀😀😀😀😀😀😀😀😀",
+    "abc😀😀😀😀😀😀😀😀😀😀😀😀😀😀😀😀😀😀😀😀😀😀😀😀😀😀😀😀😀😀",
+];
 
 fn guarded<T>(what: &str, f: impl FnOnce() -> T) -> Result<T, String> {
     std::panic::catch_unwind(std::panic::AssertUnwindSafe(f)).map_err(|e| format!("panic@{}: during {}: {}", last_panic_loc(), what, panic_msg(e).chars().take(160).collect::<String>()))
